@@ -285,6 +285,7 @@ func run(r *core.Run) {
 	}
 	// many short lived values (fields, reflect arguments) and a tiny live heap
 	debug.SetGCPercent(800)
+	r.StartWatchdog()
 	u := loadUniverse()
 	x := newRunner(r)
 	en := &enumerator{r: r, x: x}
@@ -374,58 +375,13 @@ func run(r *core.Run) {
 		r.Logf("%s: %d buffers in this shard, t=%v", name, en.done-before, time.Since(t0).Round(time.Millisecond))
 	}
 
-	section("integers+fixedpoint+bool", func() {
-		for w := 1; w <= 64; w++ {
-			pats := intPatterns(w, exhaustive)
-			e2eAt := len(pats) * 2 / 3
-			r.Case(en.idx, fmt.Sprintf("integers w=%d", w))
-			for pi, pat := range pats {
-				en.each(fmt.Sprintf("integers w=%d", w), pat, intGroups[w], pi == e2eAt)
-			}
-			if w == 37 {
-				r.Sample(map[string]any{"family": "integers", "width": w, "patterns": len(pats), "readers_per_buffer": countVariants(intGroups[w]),
-					"example_field": core.Bits(toBools(pats[e2eAt])).String()})
-			}
-		}
-	})
-	section("bigintegers", func() {
-		for _, w := range bigWidths {
-			if w <= 64 {
-				continue // part of the integer family (same buffers)
-			}
-			pats := boundaryPatterns(w)
-			r.Case(en.idx, fmt.Sprintf("bigint w=%d", w))
-			for pi, pat := range pats {
-				en.each(fmt.Sprintf("bigintegers w=%d", w), pat, intGroups[w], pi == len(pats)-1)
-			}
-			if w == 129 {
-				r.Sample(map[string]any{"family": "bigintegers", "width": w, "patterns": len(pats), "readers_per_buffer": countVariants(intGroups[w])})
-			}
-		}
-	})
-	section("floats", func() {
-		for _, w := range []int{16, 32, 64, 80} {
-			pats := floatPatterns(w)
-			r.Case(en.idx, fmt.Sprintf("float w=%d", w))
-			for pi, pat := range pats {
-				slot := -1
-				if w == 16 && r.Quick() && !halfBoundary(pi) {
-					// quick tier: every binary16 pattern at one (alignment, fill) slot that
-					// rotates with the pattern; the boundary patterns at all 16 slots
-					slot = (pi ^ pi>>4 ^ pi>>8 ^ pi>>12) & 15
-				}
-				en.eachSlot(fmt.Sprintf("floats w=%d", w), pat, floatGroups[w], pi%997 == 5, slot)
-			}
-			r.Sample(map[string]any{"family": "floats", "width": w, "patterns": len(pats), "readers_per_buffer": countVariants(floatGroups[w])})
-		}
-	})
 	section("leb128", func() {
 		pats := lebPatterns()
 		r.Case(en.idx, "leb128")
 		for pi, pat := range pats {
 			en.each("leb128", bitsOfBytes(pat), lebGroups, pi%509 == 3 || len(pat) > 2)
 		}
-		r.Sample(map[string]any{"family": "leb128", "encodings": len(pats), "example": hex.EncodeToString(pats[len(pats)-9])})
+		r.Extra("leb128_encodings", len(pats))
 	})
 	section("unary", func() {
 		r.Case(en.idx, "unary")
@@ -446,7 +402,8 @@ func run(r *core.Run) {
 				n++
 			}
 		}
-		r.Sample(map[string]any{"family": "text", "strings": len(strs), "payloads": n, "runes": "a é € U+1F600 U+0000", "readers_per_buffer": countVariants(textGroups(4))})
+		r.Extra("text_strings", len(strs))
+		r.Extra("text_payloads", n)
 	})
 	section("invalid-arguments", func() {
 		r.Case(en.idx, "invalid arguments")
@@ -454,6 +411,62 @@ func run(r *core.Run) {
 			en.each("invalid-arguments", pat, invalid, true)
 		}
 	})
+	section("floats", func() {
+		for _, w := range []int{16, 32, 64, 80} {
+			pats := floatPatterns(w)
+			r.Case(en.idx, fmt.Sprintf("float w=%d", w))
+			for pi, pat := range pats {
+				slot := -1
+				if w == 16 && r.Quick() && !halfBoundary(pi) {
+					// quick tier: every binary16 pattern at one (alignment, fill) slot that
+					// rotates with the pattern; the boundary patterns at all 16 slots
+					slot = (pi ^ pi>>4 ^ pi>>8 ^ pi>>12) & 15
+				}
+				en.eachSlot(fmt.Sprintf("floats w=%d", w), pat, floatGroups[w], pi%997 == 5, slot)
+			}
+			r.Extra(fmt.Sprintf("float%d_patterns", w), len(pats))
+		}
+	})
+	section("bigintegers", func() {
+		for _, w := range bigWidths {
+			if w <= 64 {
+				continue // part of the integer family (same buffers)
+			}
+			pats := boundaryPatterns(w)
+			r.Case(en.idx, fmt.Sprintf("bigint w=%d", w))
+			for pi, pat := range pats {
+				en.each(fmt.Sprintf("bigintegers w=%d", w), pat, intGroups[w], pi == len(pats)-1)
+			}
+			if w == 129 {
+				r.Extra("bigint129_patterns", len(pats))
+			}
+		}
+	})
+	// cheapest families first: if a deadline cuts the run it cuts the largest family
+	section("integers+fixedpoint+bool", func() {
+		for w := 1; w <= 64; w++ {
+			pats := intPatterns(w, 10)
+			e2eAt := len(pats) * 2 / 3
+			r.Case(en.idx, fmt.Sprintf("integers w=%d", w))
+			for pi, pat := range pats {
+				en.each(fmt.Sprintf("integers w=%d", w), pat, intGroups[w], pi == e2eAt)
+			}
+			if w == 37 {
+				r.Extra("int37_patterns", len(pats))
+				r.Extra("int37_reader_calls_per_buffer", countVariants(intGroups[w]))
+			}
+		}
+	})
+	if exhaustive > 10 {
+		section(fmt.Sprintf("integers-all-patterns-w11..%d", exhaustive), func() {
+			for w := 11; w <= exhaustive; w++ {
+				r.Case(en.idx, fmt.Sprintf("integers exhaustive w=%d", w))
+				for v := uint64(0); v < 1<<uint(w); v++ {
+					en.each(fmt.Sprintf("integers all patterns w=%d", w), bitsOfUint(v, w), intGroups[w], false)
+				}
+			}
+		})
+	}
 	x.flush()
 	r.Logf("shard %d done: %d buffers", r.ShardIdx, en.done)
 }
